@@ -170,10 +170,26 @@ def compute(prog, repo):
     return res
 
 
+def _engine_stamp():
+    """The cached result depends on the code that computed it: a stamp over the modules and specifications it is
+    made from, so that a changed engine never reads an older engine's result."""
+    import hashlib
+
+    h = hashlib.sha1()
+    here = os.path.dirname(os.path.abspath(__file__))
+    for f in ("tablecheck.py", "tables.py", "ucd.py", "roles.py", "mir.py", os.path.join("..", "spec", "tables_spec.py"), os.path.join("..", "spec", "precis_spec.py")):
+        try:
+            with open(os.path.join(here, f), "rb") as fh:
+                h.update(fh.read())
+        except OSError:
+            h.update(f.encode())
+    return h.hexdigest()[:10]
+
+
 def get(prog, repo=None):
     repo = repo or facts.REPO
     os.makedirs(os.path.join(prog.dir, "cache"), exist_ok=True)
-    cache = os.path.join(prog.dir, "cache", "tablecheck.json")
+    cache = os.path.join(prog.dir, "cache", "tablecheck-%s.json" % _engine_stamp())
     if os.path.exists(cache):
         with open(cache) as fh:
             return json.load(fh)
